@@ -287,6 +287,77 @@ def run(ctx):
         except Exception as ex:
             ctx.violation("exact-matrix comparison raised " + exc_kind(ex), dict(descr, err=repr(ex)),
                           {"what": "raise-matrices", "element": ename})
+    # -------- (2b) facet mass / load ENTRIES of degree-one Lagrange elements against closed forms: on a straight
+    # edge with end points a, b the traces are the 1-D hat functions (also on general quadrilaterals), on a
+    # triangular face the 2-D ones: M_aa = |e|/3, M_ab = |e|/6, l_a = |e|/2;  M_aa = |f|/6, M_ab = |f|/12, l_a = |f|/3
+    for it in range(ctx.scale(60, 500)):
+        if ctx.time_left(0.9) < 0:
+            break
+        kind = rng.choice(["tri", "quad", "quad", "quad", "tet"])
+        m, info = meshes.gen_first_order(rng, kind)
+        if m.nelements > 24:
+            continue
+        if kind == "quad" and rng.random() < 0.5:
+            # general convex quadrilaterals next to parallelograms: move SOME vertices a little
+            pp = m.p.copy()
+            for v in rng.sample(range(pp.shape[1]), max(1, pp.shape[1] // 3)):
+                pp[:, v] += np.array([rng.randint(-2, 2), rng.randint(-2, 2)]) / 64
+            m = type(m)(pp, m.t)
+            info = dict(info, gen=str(info.get("gen")) + "+moved-vertices")
+        ename = {"tri": "ElementTriP1", "quad": "ElementQuad1", "tet": "ElementTetP1"}[kind]
+        e = getattr(E, ename)()
+        allf = list(range(m.nfacets))
+        which = rng.choice(["boundary", "subset", "interior-side0", "interior-side1"])
+        bset = set(int(f) for f in m.boundary_facets())
+        inter = [f for f in allf if f not in bset]
+        if which.startswith("interior") and not inter:
+            which = "boundary"
+        if which == "boundary":
+            Fset = [int(f) for f in m.boundary_facets()]
+            if rng.random() < 0.5:
+                Fset = sorted(rng.sample(Fset, rng.randint(1, len(Fset))))
+        elif which == "subset":
+            Fset = sorted(rng.sample([int(f) for f in m.boundary_facets()], 1) + rng.sample(allf, rng.randint(0, 3)))
+            Fset = sorted(set(f for f in Fset if f in set(int(g) for g in m.boundary_facets())))
+        else:
+            Fset = sorted(rng.sample(inter, rng.randint(1, len(inter))))
+        Fa = np.array(Fset, dtype=np.int64)
+        descr = {"mesh": meshes.mesh_descr(m), "info": info, "element": ename, "facets": Fset, "which": which}
+        try:
+            from skfem import InteriorFacetBasis
+            if which.startswith("interior"):
+                fb = InteriorFacetBasis(m, e, facets=Fa, side=int(which[-1]), intorder=4)
+            else:
+                fb = FacetBasis(m, e, facets=Fa, intorder=4)
+            Mf = BilinearForm(lambda u, v, w: u * v).assemble(fb).toarray()
+            lf = LinearForm(lambda v, w: 1. * v).assemble(fb)
+            nvert = m.p.shape[1]
+            Mx, lx = np.zeros((nvert, nvert)), np.zeros(nvert)
+            for f in Fset:
+                vs = [int(v) for v in m.facets[:, f]]
+                Pv = m.p[:, vs]
+                if kind == "tet":
+                    meas = 0.5 * float(np.linalg.norm(np.cross(Pv[:, 1] - Pv[:, 0], Pv[:, 2] - Pv[:, 0])))
+                    dg, off, ld = meas / 6, meas / 12, meas / 3
+                else:
+                    meas = float(np.linalg.norm(Pv[:, 1] - Pv[:, 0]))
+                    dg, off, ld = meas / 3, meas / 6, meas / 2
+                for a in vs:
+                    lx[a] += ld
+                    for b_ in vs:
+                        Mx[a, b_] += dg if a == b_ else off
+            ctx.case({"t": m.t.tolist(), "p": m.p.tolist(), "facets": Fset, "kind": "facet-matrices", "which": which},
+                     nontrivial=len(Fset) >= 2)
+            ctx.count("facet-matrices:" + kind + ":" + which)
+            sc = max(1.0, float(np.abs(Mx).max()))
+            if np.abs(Mf - Mx).max() > 1e-11 * sc or np.abs(lf - lx).max() > 1e-11 * sc:
+                ctx.violation("facet mass / load entries of a degree-one Lagrange element differ from the closed form "
+                              "(|e|/3, |e|/6, |e|/2 per edge; |f|/6, |f|/12, |f|/3 per triangular face)",
+                              dict(descr, mass_error=float(np.abs(Mf - Mx).max()), load_error=float(np.abs(lf - lx).max())),
+                              {"what": "facet-matrices", "kind": kind, "which": which.split("-")[0]})
+        except Exception as ex:
+            ctx.violation("facet matrix comparison raised " + exc_kind(ex), dict(descr, err=repr(ex)),
+                          {"what": "raise-facet-matrices", "element": ename})
     # -------- (3) mass matrix of a partition-of-unity element sums to the measure
     for it in range(ctx.scale(100, 500)):
         if ctx.time_left(0.97) < 0:
